@@ -29,6 +29,42 @@ class Untranslatable(Exception):
     pass
 
 
+# What the translator accepts (reported in the evidence of C19).  Anything else in one of the translated functions
+# makes the run fall back to the pinned IR (`entityIrFresh = false`, reason in `entityIrFallbackReason`).
+FRAGMENT = {
+    "functions": [
+        "entities_parsing.get_entity_declaration", "entities_parsing.get_validated_dataset_name",
+        "entities_parsing.validate_entity_saveto", "EntityDeclaration.xml_instance", "EntityDeclaration.xml_bindings",
+        "EntityDeclaration._get_bind_node", "EntityDeclaration._get_id_bind_node", "EntityDeclaration._get_id_setvalue_node",
+    ],
+    "statements": [
+        "x = <expr>.get(K[, default]) / x = <expr>[K] with a constant key K (the latter keeps its KeyError)",
+        "x = f'…' / x = survey.insert_xpaths(v, context=self) / x = self.parameters / x = seq[<int>]",
+        "if <cond>: raise PyXFormError(<string>)   (an `if isinstance(x, bytes): …` inside the body is skipped)",
+        "if <cond>: return",
+        "f(...) / x = f(...) for a module-level function f (validation functions; interpreted by name)",
+        "d = {K: <string>, …};  if <cond>: d[K] = <string> …   (attribute dicts)",
+        "bind_nodes = [];  [if <cond>:] bind_nodes.append(self._get_…(survey[, <string>[, <const>]]));  return bind_nodes",
+        "return node(TAG[, node(CHILD)][, attr=self.get_xpath() + <string>], **d);  if <cond>: return node(…) else: return node(…)",
+        "return {…: const, 'parameters': {K: var, …}}",
+    ],
+    "conditions": [
+        "name / <expr>.get(K) (truthiness)", "not c", "c and d", "c or d", "True / False",
+        "len(x) > n, len(x) >= n", "'lit' in x, 'lit' not in x", "x == 'lit', 'lit' == x, x != 'lit'",
+        "x.lower() == 'lit'", "x.startswith('lit')", "x.endswith('lit')", "is_xml_tag(x)",
+    ],
+    "strings": [
+        "'lit', const.X, EC.X[.value]", "f'…{var}…{const}…'", "FMT % x with one %s", "a + b", "self.get_xpath()",
+        "survey.insert_xpaths(var, context=self)",
+    ],
+    "not_accepted_examples": [
+        "elif / else branches other than the final return pair of xml_instance", "loops, comprehensions, try/except",
+        "str.format, str.join, slicing", "comparisons between two variables", "`is None` tests (differ from truthiness for '')",
+        "helper calls with keyword arguments", "conditions on anything but the function's own variables",
+    ],
+}
+
+
 def q(s: str) -> str:
     out = ['"']
     for ch in s:
@@ -63,6 +99,8 @@ inductive EB where
   | eqLower (name : String) (lit : String)     -- `name.lower() == "lit"`
   | startsWith (name : String) (lit : String)  -- `name.startswith("lit")`
   | isXmlTag (name : String)                   -- `is_xml_tag(name)`
+  | eqLit (name : String) (lit : String)       -- `name == "lit"`
+  | endsWith (name : String) (lit : String)    -- `name.endswith("lit")`
 deriving Repr, DecidableEq
 
 /-- (C19 translator) pieces of an f-string: literal text, a variable, or `survey.insert_xpaths(var, context=self)` -/
@@ -168,8 +206,21 @@ class Tr:
             return out
         if isinstance(n, ast.UnaryOp) and isinstance(n.op, ast.Not):
             return f"(.not {self.cond(n.operand)})"
+        if isinstance(n, ast.Constant) and isinstance(n.value, bool):
+            return "EB.tt" if n.value else "(.not EB.tt)"
+        if isinstance(n, ast.Compare) and len(n.ops) == 1 and isinstance(n.ops[0], (ast.NotEq, ast.NotIn)):
+            pos = ast.Compare(left=n.left, ops=[ast.Eq() if isinstance(n.ops[0], ast.NotEq) else ast.In()],
+                              comparators=n.comparators)
+            return f"(.not {self.cond(ast.copy_location(pos, n))})"
         if isinstance(n, ast.Compare) and len(n.ops) == 1:
             op, l, r = n.ops[0], n.left, n.comparators[0]
+            if (isinstance(op, ast.GtE) and isinstance(l, ast.Call) and isinstance(l.func, ast.Name) and l.func.id == "len"
+                    and isinstance(r, ast.Constant) and isinstance(r.value, int) and r.value >= 1):
+                return f"(.lenGt {q(self.var_of(l.args[0]))} {r.value - 1})"
+            if isinstance(op, ast.Eq) and isinstance(l, (ast.Name, ast.Subscript)) and self.const_eval(r) is not None:
+                return f"(.eqLit {q(self.var_of(l))} {q(self.const_eval(r))})"
+            if isinstance(op, ast.Eq) and isinstance(r, (ast.Name, ast.Subscript)) and self.const_eval(l) is not None:
+                return f"(.eqLit {q(self.var_of(r))} {q(self.const_eval(l))})"
             if (isinstance(op, ast.Gt) and isinstance(l, ast.Call) and isinstance(l.func, ast.Name) and l.func.id == "len"
                     and isinstance(r, ast.Constant) and isinstance(r.value, int)):
                 return f"(.lenGt {q(self.var_of(l.args[0]))} {r.value})"
@@ -182,6 +233,8 @@ class Tr:
         if isinstance(n, ast.Call):
             if isinstance(n.func, ast.Attribute) and n.func.attr == "startswith" and len(n.args) == 1 and self.const_eval(n.args[0]) is not None:
                 return f"(.startsWith {q(self.var_of(n.func.value))} {q(self.const_eval(n.args[0]))})"
+            if isinstance(n.func, ast.Attribute) and n.func.attr == "endswith" and len(n.args) == 1 and self.const_eval(n.args[0]) is not None:
+                return f"(.endsWith {q(self.var_of(n.func.value))} {q(self.const_eval(n.args[0]))})"
             if isinstance(n.func, ast.Name) and n.func.id == "is_xml_tag" and len(n.args) == 1:
                 return f"(.isXmlTag {q(self.var_of(n.args[0]))})"
             if self.get_key(n) is not None:
@@ -393,7 +446,8 @@ def parts() -> list[str]:
     caught by correspondence / oracle."""
     try:
         out = fresh_parts()
-        return out + ["/-- the IR above was translated from the current source -/\ndef entityIrFresh : Bool := true"]
+        return out + ["/-- the IR above was translated from the current source -/\ndef entityIrFresh : Bool := true",
+                      "def entityIrFallbackReason : String := \"\""]
     except Untranslatable as e:
         import sys
 
@@ -401,7 +455,8 @@ def parts() -> list[str]:
         why = str(e).replace("-/", "- /")
         return [PINNED.read_text().strip(),
                 f"/-- the current source is outside the translator's fragment ({why}); the IR above is the pinned one -/\n"
-                "def entityIrFresh : Bool := false"]
+                "def entityIrFresh : Bool := false",
+                f"def entityIrFallbackReason : String := {q(str(e))}"]
 
 
 def fresh_parts() -> list[str]:
